@@ -444,7 +444,7 @@ pub fn c01_rejects_adjacency_list_n3() {
 }
 
 // AdjacencyMap::empty(2) + arbitrary arcs, then 2 ops with ids 0..4 (vertex growth).
-// @verif prop=C01 tier=quick fl=f1 feat=map4 role=history/adjacency-map t=1500 mem=20
+// @verif prop=C01 tier=thorough fl=f1 feat=map4 role=history/adjacency-map t=3600 mem=30
 #[cfg_attr(kani, kani::proof)]
 #[cfg_attr(kani, kani::unwind(10))]
 pub fn c01_history_adjacency_map_n2_x4_k2() {
@@ -458,7 +458,7 @@ pub fn c01_rejects_adjacency_map_n3() {
     rejects_map::<3>();
 }
 
-// @verif prop=C01 tier=quick fl=f1 feat=map4 role=history/weighted t=1500 mem=16
+// @verif prop=C01 tier=thorough fl=f1 feat=map4 role=history/weighted t=3600 mem=30
 #[cfg_attr(kani, kani::proof)]
 #[cfg_attr(kani, kani::unwind(10))]
 pub fn c01_history_weighted_n3_k2() {
@@ -491,4 +491,20 @@ pub fn c01_history_adjacency_list_n4_k3() {
 #[cfg_attr(kani, kani::unwind(8))]
 pub fn c01_history_matrix_n4_k4() {
     history_fixed::<AdjacencyMatrix, 4, 4>();
+}
+
+// Inductive form: arbitrary start digraph + ONE operation (every state of these representations is reachable as a set
+// of arcs, so one step from an arbitrary start covers histories of any length for this order).
+// @verif prop=C01 tier=quick fl=f1 feat=map4 role=history/adjacency-map t=1500 mem=20
+#[cfg_attr(kani, kani::proof)]
+#[cfg_attr(kani, kani::unwind(8))]
+pub fn c01_history_adjacency_map_n2_x4_k1() {
+    history_map::<2, 4, 1>();
+}
+
+// @verif prop=C01 tier=quick fl=f1 feat=map4 role=history/weighted t=1500 mem=20
+#[cfg_attr(kani, kani::proof)]
+#[cfg_attr(kani, kani::unwind(8))]
+pub fn c01_history_weighted_n3_k1() {
+    history_weighted::<3, 1>();
 }
